@@ -82,6 +82,10 @@ func c18Inputs() []c18Input {
 		{"data-error", seedProfilePlain, "not json", true, false},
 		{"data-jsonld-error", seedProfilePlain, `{"@id":1}`, true, false},
 		{"empty-data", seedProfilePlain, `{}`, true, true},
+		// characters that text encoders treat specially (HTML-sensitive <, >, &, U+2028/U+2029, non-ASCII, supplementary plane,
+		// backslash, quotes, a control character): the CLI must print what the library returns, not a re-encoding of it
+		{"encoder-specials", strings.Replace(strings.Replace(seedProfilePlain, "message: p1 is required", "message: \"<p1> & 'q' \\\\ \\u00e9\\u6f22\\U0001F600 \\u2028\\u2029 </script> is required\"", 1), "profile: seed plain", "profile: \"a<b>&c \\u00e9\"", 1),
+			strings.ReplaceAll(strings.ReplaceAll(one.FlatJSONLD(), "http://ex.org/n", "http://ex.org/q?a=1&b=2#n"), "\"a\"", "\"<a> & b \\u2028 \\u00e9\\ud83d\\ude00 \\\\ \\u0001 \\\"q\\\" </x>\""), true, true},
 		{"percent", strings.Replace(strings.Replace(seedProfilePlain, "message: p1 is required", "message: \"100% of %d nodes need p1 %s\"", 1), "profile: seed plain", "profile: 50%v plain", 1), strings.ReplaceAll(one.FlatJSONLD(), "http://ex.org/n", "file:///my%20api.raml#n"), true, true},
 	}
 }
@@ -89,7 +93,7 @@ func c18Inputs() []c18Input {
 func init() {
 	Register(Meta{
 		ID: "C18", Level: "model_checking",
-		Rule:        "state = (kind, mode, content) of the OUTPUT path; initial states: absent, empty file, short junk, long junk (longer than any report), read-only file, directory, missing parent directory; transitions = one run of the built acv: `validate P D OUT` and `validate P D` for 8 (P,D) inputs (conforming/short report, one violation, many violations/long report, two profile errors, two data errors, empty graph), missing input files, `generate P`, `normalize D`, `compile P`, wrong argument counts, unknown command. Breadth-first to a fixpoint of the canonical state set (content hashed with the dateCreated value masked). Oracle per transition: the library called in-process on the same texts (report modulo the dateCreated value, which must be RFC3339 within the invocation's wall-clock window; generated code after a counter reset; normalised input); failures: non-zero exit and empty stdout.",
+		Rule:        "state = (kind, mode, content) of the OUTPUT path; initial states: absent, empty file, short junk, long junk (longer than any report), read-only file, directory, missing parent directory; transitions = one run of the built acv: `validate P D OUT` and `validate P D` for 11 (P,D) inputs (conforming/short report, one violation, many violations/long report, two profile errors, two data errors, empty graph, `%` in names/messages/ids, HTML-sensitive/non-ASCII/control characters in names, messages, ids and values), missing input files, `generate P`, `normalize D`, `compile P`, wrong argument counts, unknown command. Breadth-first to a fixpoint of the canonical state set (content hashed with the dateCreated value masked). Oracle per transition: the library called in-process on the same texts (report modulo the dateCreated value, which must be RFC3339 within the invocation's wall-clock window; generated code after a counter reset; normalised input); failures: non-zero exit and empty stdout.",
 		Assumptions: []string{"the sandbox runs as root, so a read-only output file is writable (that state is explored but behaves like a plain file)"},
 	}, func(tier string, emit func(c18Case)) {
 		init := []string{"absent", "empty", "short", "long", "readonly", "dir", "noparent"}
